@@ -141,6 +141,7 @@ type vDriver struct {
 	pubCount map[string]int
 	sawLocal map[string]bool
 	bodyOf   map[string]string // digest -> hex body of the own observation
+	dueMiss  map[string]int    // digest -> consecutive ticks at which a retry was due and did not happen
 }
 
 func vNewDriver(t *testing.T, root context.Context, own *ecdsa.PrivateKey, govChain vaa.ChainID, govAddr vaa.Address, id int) *vDriver {
@@ -158,7 +159,7 @@ func vNewDriver(t *testing.T, root context.Context, own *ecdsa.PrivateKey, govCh
 		fs: map[string]int64{}, lr: map[string]int64{}, ids: map[string]vaa.VAAID{}, dbSnap: map[string]string{},
 		keccakT: map[string]string{}, signT: map[string]string{}, recT: map[string]string{},
 		localGS: map[string]*common.GuardianSet{}, localIdx: map[string]bool{}, accepted: map[string]map[ethcommon.Address]bool{},
-		pubCount: map[string]int{}, sawLocal: map[string]bool{}, bodyOf: map[string]string{}}
+		pubCount: map[string]int{}, sawLocal: map[string]bool{}, bodyOf: map[string]string{}, dueMiss: map[string]int{}}
 	dr.p = NewProcessor(root, d, nil, nil, dr.sendC, dr.obsvC, dr.reqC, nil, nil, &ecdsasigner.ECDSAPrivateKey{Value: own},
 		common.NewGuardianSetState(nil), reporter.EventListener(zap.NewNop()), nil, govChain, govAddr)
 	dr.h = &vHistory{K: "hist", ID: id, Own: hex.EncodeToString(crypto.PubkeyToAddress(own.PublicKey).Bytes()), OwnKey: hex.EncodeToString(crypto.FromECDSA(own)), GovCh: uint16(govChain),
@@ -724,6 +725,15 @@ func (dr *vDriver) opCleanup() bool {
 		}
 		if b.hasMsg && !b.submitted && !b.inDB && b.settled && b.age >= 300 && (b.lrAge < 0 || b.lrAge >= 300) && b.retries < 14400 && alive && s.retryCount == b.retries {
 			dr.h.Mon = append(dr.h.Mon, "C14: a pending own observation that was due for its five-minute retry was not re-broadcast")
+		}
+		// whatever the settled flag says: due at two consecutive ticks (the first may only settle) and still not retried
+		if b.hasMsg && !b.submitted && !b.inDB && b.age >= 300 && (b.lrAge < 0 || b.lrAge >= 300) && b.retries < 14400 && alive && s.retryCount == b.retries && ok {
+			dr.dueMiss[dg]++
+			if dr.dueMiss[dg] == 2 {
+				dr.h.Mon = append(dr.h.Mon, "C14: a pending own observation was due for its five-minute retry at two consecutive ticks and was not re-broadcast")
+			}
+		} else {
+			delete(dr.dueMiss, dg)
 		}
 		if !b.hasMsg && b.settled && b.age >= 300 && alive && ok {
 			dr.h.Mon = append(dr.h.Mon, "C14: an entry for a message the node never observed survived a tick past five minutes")
